@@ -8,7 +8,8 @@ import HcipyVerif.Lemmas.Mirror
 Model: `HcipyVerif.ModeBasis` (storage forms `dense` = list of rows, `sparse` = list of stored
 CSC columns; constructors `fromDense / fromCSC / fromFields / fromSparseRows`; operations
 `linComb`, `getItem`, `add`, `sparsify`, `densify`) and `HcipyVerif.Mirror` (heap of actuator
-arrays with handles, value-compared private-copy surface cache).  The shared denotation is
+arrays with handles, heap of surface arrays with the handles the caller received,
+value-compared private-copy surface cache, reads hand out copies).  The shared denotation is
 `toDense : Basis K → List (List K)` together with `npix`, `nmodes`.
 
 The basis theorems hold over every commutative semiring / additive monoid `K` (in particular
@@ -232,8 +233,10 @@ end lstsq
 section mirror
 variable {K : Type} [Zero K] [Add K] [Mul K] [DecidableEq K]
 
-/-- The cache invariant (`cached = some a → surface = IF · a`) holds for a new mirror and is
-preserved by every operation, hence along every history. -/
+/-- The cache invariant holds for a new mirror and is preserved by every operation, hence along
+every history: (i) whatever actuator vector the cache claims to belong to, the cached surface
+array holds `IF · that vector`; (ii) no array a caller received from `dm.surface` is the cached
+array object (so in-place edits of returned surfaces cannot reach the cache). -/
 theorem mirror_cache_invariant (infl : List (List K)) (n : Nat) (ops : List (Op K)) :
     Inv (run (init infl n) ops).1 := by
   have : ∀ (m : Mirror K), Inv m → Inv (run m ops).1 := by
@@ -244,10 +247,13 @@ theorem mirror_cache_invariant (infl : List (List K)) (n : Nat) (ops : List (Op 
 
 /-- **The reported surface always equals `IF · current actuators`.**  For EVERY history of
 assignments of new arrays, re-assignments of arrays handed out earlier, in-place edits of any
-array ever handed out (the one the mirror holds or a released one), `flatten`, `random` and new
+actuator array ever handed out (the one the mirror holds or a released one), **in-place edits of
+any surface array a read ever returned** (`Op.editSurface`), `flatten`, `random` and new
 influence functions, with reads anywhere in between, the sequence of surfaces returned by the
-cached mirror is exactly the sequence returned by the cache-free specification, which evaluates
-`matvec infl (current actuator array)` at every read. -/
+cached mirror (`read` = the property as repaired by pending_fixes/D22f: a copy is handed out) is
+exactly the sequence returned by the cache-free specification, which evaluates
+`matvec infl (current actuator array)` at every read and ignores what callers do to arrays they
+received.  For the property as pinned this is false: `old_readAlias_corrupts_cache`. -/
 theorem mirror_surface_inv (infl : List (List K)) (n : Nat) (ops : List (Op K)) :
     (run (init infl n) ops).2 = (spec (init infl n)).run ops :=
   run_spec _ ops (inv_init infl n)
@@ -258,6 +264,25 @@ theorem mirror_read_ideal (infl : List (List K)) (n : Nat) (ops : List (Op K)) :
     let m := (run (init infl n) ops).1
     (read m).2 = matvec m.infl (acts m) ∧ spec (read m).1 = spec m :=
   ⟨read_snd _ (mirror_cache_invariant infl n ops), read_fst_spec _⟩
+
+/-- **Returned surfaces are the caller's own**: in any reachable state, an in-place edit of any
+array that any earlier read returned changes neither the cached surface array nor what the next
+read returns. -/
+theorem mirror_returned_surface_private (infl : List (List K)) (n : Nat) (ops : List (Op K))
+    (k i : Nat) (v : K) :
+    let m := (run (init infl n) ops).1
+    surface (editOut m k i v) = surface m ∧
+    (read (editOut m k i v)).2 = (read m).2 := by
+  intro m
+  have hm : Inv m := mirror_cache_invariant infl n ops
+  refine ⟨surface_editOut m hm k i v, ?_⟩
+  rw [read_snd _ (editOut_inv m hm k i v), read_snd _ hm]
+  have h := spec_editOut m k i v
+  have h1 : (editOut m k i v).infl = m.infl := congrArg Spec.infl h
+  have h2 : acts (editOut m k i v) = acts m := by
+    have := congrArg Spec.acts h
+    simpa [Spec.acts, spec, acts] using this
+  rw [h1, h2]
 
 end mirror
 
@@ -273,6 +298,27 @@ theorem readByRef_stale :
 theorem readByIdentity_stale :
     runWith readByIdentity (init [[(1 : Int)]] 1) [.read, .edit 0 0 5, .read] = [[0], [0]] ∧
     (spec (init [[(1 : Int)]] 1)).run [.read, .edit 0 0 5, .read] = [[0], [5]] := by decide
+
+/-! ### Old: the `surface` property as pinned (before pending_fixes/D22f) hands out its cache -/
+section Old
+open HcipyVerif.Mirror.Old
+
+/-- **Defect D22f (replayed on the real `DeformableMirror`, see reports/C14.md).**  With
+`return self._surface` the caller holds the cached array itself: `dm.actuators = [1];
+s = dm.surface; s[0] = 5; dm.surface` answers `[5]` although the actuators still say `[1]` —
+the cache-free specification (and the repaired `read`) answer `[1]`. -/
+theorem old_readAlias_corrupts_cache :
+    runWith readAlias (init [[(1 : Int)]] 1) [.assign [1], .read, .editSurface 0 0 5, .read] = [[1], [5]] ∧
+    (spec (init [[(1 : Int)]] 1)).run [.assign [1], .read, .editSurface 0 0 5, .read] = [[1], [1]] ∧
+    (run (init [[(1 : Int)]] 1) [.assign [1], .read, .editSurface 0 0 5, .read]).2 = [[1], [1]] := by decide
+
+/-- … and the invariant clause that fails is exactly `outs_ne`: after one aliasing read the
+caller holds the cached array. -/
+theorem old_readAlias_breaks_outs_ne :
+    let m := (readAlias (init [[(1 : Int)]] 1)).1
+    ∃ h ∈ m.outs, h = m.surf := by decide
+
+end Old
 
 /-! ### Satisfiability of the hypotheses -/
 
